@@ -4,8 +4,9 @@ import ast
 from ..core import rule
 from ..index import AnalysisError, dotted, src, walk_no_nested, PKG, names_in
 from ..cfg import CFG
-from ..util import node_calls, own_expr, reach_expr, pred_is
-from .slots import FEATURES, MOLECULE
+from ..util import node_calls, own_expr, reach_expr, pred_is, arg
+from ..domains import linform
+from .slots import FEATURES, MOLECULE, FRAGMENT, P
 
 CLS = 'FeatureContainer'
 MUTATING_CALLS = {'append', 'extend', 'insert', 'pop', 'remove', 'clear', 'sort', 'reverse', 'update', 'add', 'discard',
@@ -369,6 +370,60 @@ def r3(ctx):
     ctx.need('C16-R3', n, 2, 'functools cache sites in the package')
 
 
+FEATMOL = P + 'molecule/featureannotatedmolecule.py'
+
+
+@rule('C16', 'C16-R6', 'read annotation queries closed intervals: every range handed to findFeaturesBetween by the annotation code is an inclusive block - either '
+                       'taken from get_aligned_blocks() (inclusive first/last position) or a pysam get_blocks() block with its exclusive end reduced by one')
+def r6(ctx):
+    n = 0
+    for rel in (FRAGMENT, FEATMOL, FEATURES):
+        if not ctx.ix.exists(rel):
+            continue
+        m = ctx.ix.module(rel)
+        for q, defs in sorted(m.defs.items()):
+            for f in defs:
+                if not isinstance(f, (ast.FunctionDef, ast.AsyncFunctionDef)):
+                    continue
+                for c in walk_no_nested(f):
+                    if not (isinstance(c, ast.Call) and isinstance(c.func, ast.Attribute) and c.func.attr == 'findFeaturesBetween'):
+                        continue
+                    endarg = arg(c, 2, 'sampleEnd')
+                    startarg = arg(c, 1, 'sampleStart')
+                    if endarg is None or startarg is None:
+                        continue
+                    # where do (start, end) come from: the innermost enclosing loop / comprehension that binds the names used in the end argument
+                    binder = None
+                    p_ = m.parent.get(c)
+                    while p_ is not None and p_ is not f:
+                        if isinstance(p_, ast.For) and names_in(endarg) & {x.id for x in ast.walk(p_.target) if isinstance(x, ast.Name)}:
+                            binder = p_.iter
+                            break
+                        if isinstance(p_, (ast.ListComp, ast.SetComp, ast.GeneratorExp, ast.DictComp)):
+                            for g_ in p_.generators:
+                                if names_in(endarg) & {x.id for x in ast.walk(g_.target) if isinstance(x, ast.Name)}:
+                                    binder = g_.iter
+                            if binder is not None:
+                                break
+                        p_ = m.parent.get(p_)
+                    if binder is None:
+                        continue          # not a block loop (e.g. the caller passes its own coordinates through)
+                    bsrc = src(binder)
+                    if 'get_blocks' in bsrc:
+                        n += 1
+                        lf = linform(endarg)
+                        ok = lf is not None and lf.const == -1 and len(lf.coef) == 1
+                        ctx.emit('C16-R6', ok, rel, c, f'{q}: blocks of `{bsrc[:50]}` are half-open [start, end); the closed query is given end `{src(endarg)}`' +
+                                 ('' if ok else ' - a feature that starts on the first base after the block is reported although the read does not cover it'),
+                                 key=f'{q}:closed-block-end', what=f'{q}: half-open pysam block passed to the closed-interval range query')
+                    elif 'get_aligned_blocks' in bsrc:
+                        n += 1
+                        lf = linform(endarg)
+                        ok = lf is not None and lf.const == 0 and len(lf.coef) == 1
+                        ctx.emit('C16-R6', ok, rel, c, f'{q}: blocks of get_aligned_blocks() are inclusive; the closed query is given end `{src(endarg)}`', key=f'{q}:closed-block-end')
+    ctx.need('C16-R6', n, 2, 'block-wise range queries of the annotation code')
+
+
 META = {
     'text': ('Decides the history clause: for every method of FeatureContainer that writes a field which a functools-memoised '
              'lookup (findFeaturesAt, findNearestFeature; computed, not listed) transitively reads, the lookup\'s cache is cleared '
@@ -460,6 +515,25 @@ def r4(ctx):
         good = ('startCoordinates' in src(c.args[0])) and ((lf == Lin({coord: 1}, 1) and side == ['left']) or (lf == Lin({coord: 1}) and side == ['right']))
         okall = okall and good
     ctx.emit('C16-R4', okall, FEATURES, ssx[0] if ssx else g, f'point query: candidate range ends at the number of features with start <= coordinate ({len(ssx)} searchsorted sites)', key='at:start-bound')
+    # left end of the candidate window: the first feature with start >= coordinate - longest feature (side 'left': a feature starting exactly
+    # there can still reach the coordinate); this branch also builds the fast index in sort()
+    ldefs = {}
+    for s_ in walk_no_nested(g):
+        if isinstance(s_, ast.Assign) and len(s_.targets) == 1 and isinstance(s_.targets[0], ast.Name):
+            ldefs.setdefault(s_.targets[0].id, []).append(s_.value)
+    lefts = []
+    for c in walk_no_nested(g):
+        if isinstance(c, ast.Call) and (dotted(c.func) or '').endswith('searchsorted') and len(c.args) >= 2 and 'startCoordinates' in src(c.args[0]):
+            a1 = c.args[1]
+            if isinstance(a1, ast.Name) and ldefs.get(a1.id) and len({src(d_) for d_ in ldefs[a1.id]}) == 1:
+                a1 = ldefs[a1.id][0]
+            lf = linform(a1)
+            if lf is not None and lf.coef.get(coord) == 1 and any(v == -1 and 'maxFeatureSize' in k for k, v in lf.coef.items()):
+                side = [k.value.value for k in c.keywords if k.arg == 'side' and isinstance(k.value, ast.Constant)] or [x.value for x in c.args[2:3] if isinstance(x, ast.Constant)]
+                lefts.append((c, side, lf.const))
+    okl = bool(lefts) and all(side == ['left'] and const <= 0 for c, side, const in lefts)
+    ctx.emit('C16-R4', okl, FEATURES, lefts[0][0] if lefts else g, f'point query: candidate window starts at searchsorted(starts, coordinate - longest feature, side={[s_ for c, s_, k in lefts]})' +
+             ('' if okl else " - with side='right' a longest feature that starts exactly at coordinate - longest is skipped"), key='at:window-left-bound')
     flt = [c for c in walk_no_nested(g) if isinstance(c, ast.Compare) and len(c.ops) == 1 and coord in names_in(c) and
            (src(c.left).endswith('[1]') or src(c.comparators[0]).endswith('[1]'))]
     n = 0
